@@ -127,6 +127,15 @@ def writer_entails_reader(ctx, rule, key, L, base_name, items, facts, mins, at, 
     neg = {"lt": "ge", "le": "gt", "gt": "le", "ge": "lt", "eq": "ne", "ne": "eq"}
     checked, bad = 0, []
     for t, rel, v in sorted(facts, key=lambda f: str(f[0].id)):
+        if rel == "eq" and v == 1 and t.op == "range_ok" and len(t.args) == 3:
+            # lo <= hi <= n must hold for every honest encoding: neither lo > hi nor hi > n may be feasible
+            lo_, hi_, n_ = (L.lin(x) for x in t.args)
+            if not (set(lo_.t) | set(hi_.t) | set(n_.t)) or not (set(lo_.t) | set(hi_.t) | set(n_.t)) <= allowed:
+                continue
+            checked += 1
+            if not (lin.infeasible(cons + [hi_.add(lo_, -1).add(lin.Lin(1))]) and lin.infeasible(cons + [n_.add(hi_, -1).add(lin.Lin(1))])):
+                bad.append("%s is True" % S(t, 4))
+            continue
         if rel != "eq" or v not in (0, 1) or t.op not in ("lt", "le", "gt", "ge", "eq", "ne") or len(t.args) != 2:
             continue
         d = L.lin(t.args[0]).add(L.lin(t.args[1]), -1)
